@@ -116,6 +116,25 @@ pub fn configs(prop: &str, thorough: bool) -> Vec<(Cfg, Option<usize>)> {
                 c.blocks = 3;
                 out.push((c, None));
             }
+            // a multisig that takes a deposit and refunds failed proposals: the vote that rejects (and pays back) must
+            // still leave the status and the tally where the ballots put them
+            for (tn, th) in [("pct51", Th::Pct(pct(510_000_000))), ("q60-10", Th::Quorum { t: pct(600_000_000), q: pct(100_000_000) })] {
+                let mut c = Cfg::base(&format!("C03/flex/w124/{tn}/native-deposit-refunded-on-rejection"), true);
+                c.props = p.clone();
+                // C alone (4 of 7) rejects before expiry under both rules; A and B together (3) would pass a tally that forgot C
+                c.voters = vec![(0, 1), (1, 2), (2, 4)];
+                c.th = th;
+                c.deposit = Dep::Native { amount: 2, refund: true };
+                c.funds = vec![vec![(0, 2)]];
+                c.purse = 2;
+                c.proposers = vec![0];
+                c.votes = vec![VoteA::Yes, VoteA::No];
+                c.voters_acting = vec![1, 2];
+                c.executors = vec![3];
+                c.closers = vec![3];
+                c.blocks = 3;
+                out.push((c, None));
+            }
             // flex: the group changes AFTER the proposal was opened (status must keep following its own snapshot)
             for (n, wv, th) in [
                 ("A1,B2,C1/pct51", vec![(0u8, 1u64), (1, 2), (2, 1)], Th::Pct(pct(510_000_000))),
@@ -273,6 +292,48 @@ pub fn configs(prop: &str, thorough: bool) -> Vec<(Cfg, Option<usize>)> {
                 c.editors = vec![4];
                 c.max_edits = 2;
                 c.edits_after_proposal = true;
+                c.hooked = true;
+                out.push((c, None));
+            }
+            // (a0) the dedicated executor is named in an unusual spelling of an address (upper-case bech32): whatever
+            // the multisig makes of it, nobody else becomes entitled to execute
+            {
+                let mut c = Cfg::base("C05/flex/count2/Only(^X)/height/executor-in-upper-case", true);
+                c.props = p.clone();
+                c.actors = vec!["A", "B", "Z", "X", "^X"];
+                c.voters = vec![(0, 1), (1, 1)];
+                c.th = Th::Count(2);
+                c.executor = Exec::Only(4);
+                c.max_props = 1;
+                c.kinds = vec![PK::Tag1];
+                c.votes = vec![VoteA::Yes, VoteA::No];
+                c.proposers = vec![0];
+                c.voters_acting = vec![1];
+                c.executors = vec![0, 2, 3];
+                c.closers = vec![3];
+                c.blocks = 3;
+                out.push((c, None));
+            }
+            // (a1) Executor::Member with a non-voting (weight 0) member that the group admin removes later
+            {
+                let mut c = Cfg::base("C05/flex/count2/Member/height/zero-weight-member-removed", true);
+                c.props = p.clone();
+                c.actors = vec!["A", "B", "C", "X", "ADM"];
+                c.group_admin = 4;
+                c.voters = vec![(0, 1), (1, 1), (2, 0)];
+                c.th = Th::Count(2);
+                c.executor = Exec::Member;
+                c.max_props = 1;
+                c.kinds = vec![PK::Tag1];
+                c.votes = vec![VoteA::Yes];
+                c.proposers = vec![0];
+                c.voters_acting = vec![1];
+                c.executors = vec![2, 3];
+                c.closers = vec![3];
+                c.blocks = 2;
+                c.edits = vec![GroupEdit { remove: vec![2], add: vec![] }, GroupEdit { remove: vec![], add: vec![(3, 0)] }];
+                c.editors = vec![4];
+                c.max_edits = 2;
                 c.hooked = true;
                 out.push((c, None));
             }
@@ -436,12 +497,12 @@ pub fn configs(prop: &str, thorough: bool) -> Vec<(Cfg, Option<usize>)> {
                 out.push((c, None));
             }
             // more voters than the largest page (30): totals, ballots and eligibility of the last ones in address order
-            for flex in [false, true] {
+            for (flex, th33) in [(false, Th::Count(17)), (true, Th::Count(17)), (false, Th::Pct(pct(510_000_000))), (true, Th::Pct(pct(510_000_000)))] {
                 let names: Vec<&'static str> = vec![
                     "V00", "V01", "V02", "V03", "V04", "V05", "V06", "V07", "V08", "V09", "V10", "V11", "V12", "V13", "V14", "V15", "V16",
                     "V17", "V18", "V19", "V20", "V21", "V22", "V23", "V24", "V25", "V26", "V27", "V28", "V29", "V30", "V31", "V32", "ADM",
                 ];
-                let mut c = Cfg::base(&format!("C06/{}/33-voters/Count(17)", if flex { "flex" } else { "fixed" }), flex);
+                let mut c = Cfg::base(&format!("C06/{}/33-voters/{}", if flex { "flex" } else { "fixed" }, if th33 == Th::Count(17) { "Count(17)" } else { "pct51" }), flex);
                 c.props = Props { c06: true, c03: true, ..Default::default() };
                 c.actors = names.clone();
                 // the three voters that sort last by ADDRESS (whatever their labels) are among the actors that act
@@ -449,7 +510,7 @@ pub fn configs(prop: &str, thorough: bool) -> Vec<(Cfg, Option<usize>)> {
                 by_addr.sort_by_key(|i| mc::world::addr_cached(names[*i as usize]));
                 c.voters = (0..33u8).map(|i| (i, 1 + (i as u64 % 2))).collect();
                 c.group_admin = 33;
-                c.th = Th::Count(17);
+                c.th = th33;
                 c.proposers = vec![by_addr[0], by_addr[32]];
                 c.votes = vec![VoteA::Yes];
                 c.voters_acting = vec![by_addr[1], by_addr[30], by_addr[31], by_addr[32]];
@@ -478,6 +539,28 @@ pub fn configs(prop: &str, thorough: bool) -> Vec<(Cfg, Option<usize>)> {
                 c.executors = vec![3];
                 c.closers = vec![3];
                 c.blocks = 4;
+                out.push((c, None));
+            }
+            // the multisig is unregistered as a hook (and possibly registered again) while proposals are open
+            {
+                let mut c = Cfg::base("C06/flex/A1,B2,C1/count2/hook-unregistered-later", true);
+                c.props = Props { c06: true, c03: true, ..Default::default() };
+                c.actors = vec!["A", "B", "C", "X", "ADM"];
+                c.group_admin = 4;
+                c.voters = vec![(0, 1), (1, 2), (2, 1)];
+                c.th = Th::Count(2);
+                c.max_props = 1;
+                c.proposers = vec![0];
+                c.votes = vec![VoteA::Yes];
+                c.voters_acting = vec![1, 2, 3];
+                c.executors = vec![3];
+                c.closers = vec![];
+                c.blocks = 2;
+                c.edits = vec![GroupEdit { remove: vec![], add: vec![(1, 6), (3, 2)] }, GroupEdit { remove: vec![2], add: vec![] }];
+                c.editors = vec![4];
+                c.max_edits = 2;
+                c.hooked = true;
+                c.hook_toggle = true;
                 out.push((c, None));
             }
             // flex: group edits placed before / in the same block as / after proposals and votes
@@ -650,6 +733,31 @@ pub fn configs(prop: &str, thorough: bool) -> Vec<(Cfg, Option<usize>)> {
                 c.blocks = 3;
                 c.purse = 4;
                 c.funds = vec![vec![(0, 2)]];
+                out.push((c, None));
+            }
+            // the multisig listens to its group: a membership change arriving while a failed proposal's deposit is
+            // still owed must not make it unrecoverable
+            {
+                let mut c = Cfg::base("C15/A1,B1,C1/count3/native/refund=true/hooked-group-changes", true);
+                c.props = p.clone();
+                c.actors = vec!["A", "B", "C", "X", "ADM"];
+                c.group_admin = 4;
+                c.voters = vec![(0, 1), (1, 1), (2, 1)];
+                c.th = Th::Count(3);
+                c.deposit = Dep::Native { amount: 2, refund: true };
+                c.max_props = 1;
+                c.proposers = vec![0];
+                c.votes = vec![VoteA::Yes, VoteA::No];
+                c.voters_acting = vec![1];
+                c.executors = vec![3];
+                c.closers = vec![0, 3];
+                c.blocks = 3;
+                c.purse = 4;
+                c.funds = vec![vec![(0, 2)]];
+                c.edits = vec![GroupEdit { remove: vec![], add: vec![(3, 1)] }, GroupEdit { remove: vec![2], add: vec![] }];
+                c.editors = vec![4];
+                c.max_edits = 2;
+                c.hooked = true;
                 out.push((c, None));
             }
             // a multisig configured with a voting period of zero: whatever Propose does, no deposit may get stuck
